@@ -90,6 +90,8 @@ def ev(body, e, leaf, depth=0):
         v = rec(base)
         if isinstance(v, tuple) and v and v[0] == 'tuple':
             idx = int(e[2].lstrip('#'))
+            if v[1][idx] is None:
+                raise Unknown('tuple component')
             return v[1][idx]
         if isinstance(v, dict):
             if e[2] in v:
@@ -100,7 +102,13 @@ def ev(body, e, leaf, depth=0):
         return rec(e[1])
     if k == 'aggr':
         if e[1] == 'tuple':
-            return ('tuple', [rec(a) for a in e[2]])
+            vals = []
+            for a in e[2]:          # a component that is not a term of the domain (a Duration, a String) stays unknown
+                try:
+                    vals.append(rec(a))
+                except Unknown:
+                    vals.append(None)
+            return ('tuple', vals)
         if e[1].endswith('Option::Some') and e[2]:
             return rec(e[2][0])
         raise Unknown('aggr %s' % e[1])
@@ -285,3 +293,28 @@ def walk_cfg(body, leaf, watch=None, max_steps=400):
         else:
             return {'calls': calls, 'ret': ret, 'ok': False, 'why': k}
     return {'calls': calls, 'ret': ret, 'ok': False, 'why': 'steps'}
+
+
+def feasible_values(body, e, leaf, limit=256):
+    """values the term `e` can take under the leaf assignment: its top-level alternatives (gamma expansion) whose branch
+    decisions are not known to be false, each evaluated with ev. Returns [(value or None when not evaluable, alternative)]."""
+    from .facts import alternatives
+    out = []
+    for a, conds in alternatives(body, e, limit):
+        ok = True
+        for d, v in conds:
+            dv = try_ev(body, d, leaf)
+            if isinstance(dv, dict):
+                dv = dv.get('__discr__')
+            if not isinstance(dv, int) or isinstance(dv, bool) and False:
+                continue
+            if isinstance(v, tuple):
+                if dv in v[1]:
+                    ok = False
+                    break
+            elif dv not in v:
+                ok = False
+                break
+        if ok:
+            out.append((try_ev(body, a, leaf), a))
+    return out
